@@ -792,6 +792,21 @@ fn trace_reset(w: &mut W, seed: u64, n_ops: usize, st: &mut Stats) {
         sel = false;
         st.r_highlighting += 1;
     }
+    // every fifth trace (round 3, after the seeded change C17-clear-keeps-notice): the last key before the reset leaves a
+    // NOTICE behind without touching the user dictionary - Ctrl-2 over a buffer that cannot be added (one syllable, or
+    // letters in English mode) answers "加詞失敗…"; a reset context must not show it any more than a new one does
+    if rng.chance(1, 5) {
+        let mut extra: Vec<Op> = if sel { vec![Op::CandClose] } else { vec![] };
+        extra.extend([Op::CleanBopomofo, Op::CleanPreedit]);
+        extra.extend(b"hk4".iter().map(|k| Op::Default(*k)));
+        extra.push(Op::CtrlNum(b'2'));
+        for o in &extra {
+            unsafe { apply(a, o) };
+        }
+        prefix.extend(extra);
+        sel = false;
+        st.r_notice += 1;
+    }
     for o in &prefix {
         hist.push(o.text());
     }
@@ -1476,6 +1491,7 @@ struct Stats {
     r_in_syllable: u64,
     r_raw_after_reset: u64,
     r_highlighting: u64,
+    r_notice: u64,
     p_traces: u64,
     p_ops: u64,
     p_other_ops: u64,
@@ -1496,7 +1512,7 @@ fn cum_line(section: &str, st: &Stats) -> String {
         "R" => vec![
             ("R.traces", st.r_traces), ("R.continuation_ops", st.r_ops), ("R.reset_while_selecting", st.r_in_selecting),
             ("R.reset_with_pending_syllable", st.r_in_syllable), ("R.raw_slot_reads_after_reset", st.r_raw_after_reset),
-            ("R.reset_after_shift_left_highlight", st.r_highlighting), ("R.observations", st.observations),
+            ("R.reset_after_shift_left_highlight", st.r_highlighting), ("R.reset_after_a_failed_ctrl_2_notice", st.r_notice), ("R.observations", st.observations),
         ],
         _ => vec![
             ("P.traces", st.p_traces), ("P.ops", st.p_ops), ("P.ops_of_other_contexts", st.p_other_ops),
